@@ -64,6 +64,9 @@ class Ctx:
     def has_local(self, name):
         return name in self.st.env
 
+    def has_extra(self, name):
+        return name in self.extra
+
     def g(self, name):
         val = self.st.ghost[name]
         return val.term if isinstance(val, Val) else val
